@@ -1,7 +1,7 @@
 (** Slice "xg": lexical lemmas shared by the proofs about Model/XmlGen.v -
     the writer's rendering choices applied to single strings (attribute values,
     character data, CDATA) and the decimal printing of integers. *)
-From Coq Require Import Decimal ZArith Lia.
+From Coq Require Import Decimal DecimalPos DecimalN DecimalZ ZArith Lia.
 From E57 Require Import Base.Prelude Model.Meta Model.MetaFile Model.XmlTree Model.XmlGen
   Spec.XmlRender Spec.MetaTree Spec.XgWriterOk.
 Require Import Coq.Strings.String.
@@ -125,43 +125,11 @@ Proof.
 Qed.
 
 Lemma cdata_body_escape : forall t, cdata_body t = cdata_escape t.
-Proof.
-  (* both skip three bytes on a match: induction on an upper bound of the length *)
-  assert (H : forall n t, (length t <= n)%nat -> cdata_body t = cdata_escape t).
-  { induction n as [|n IH]; intros t Hl.
-    - destruct t; [reflexivity|cbn in Hl; lia].
-    - destruct t as [|b1 r1]; [reflexivity|].
-      cbn [cdata_body cdata_escape].
-      destruct r1 as [|b2 [|b3 r3]].
-      + destruct b1 as [|p]; [reflexivity|].
-        destruct (N.eqb_spec (N.pos p) 93) as [->|]; reflexivity || (destruct p; reflexivity || idtac);
-        try reflexivity.
-        all: repeat (match goal with |- context [match ?p with _ => _ end] => destruct p end); reflexivity.
-      + assert (Hr : cdata_body [b2] = cdata_escape [b2]) by (apply IH; cbn in *; lia).
-        destruct (N.eqb_spec b1 93) as [->|N1].
-        * cbn [cdata_body] in Hr. rewrite Hr. reflexivity.
-        * rewrite Hr. destruct b1 as [|p]; [reflexivity|].
-          repeat (match goal with |- context [match ?p with _ => _ end] => destruct p end); try reflexivity; congruence.
-      + assert (Hr : cdata_body (b2 :: b3 :: r3) = cdata_escape (b2 :: b3 :: r3)) by (apply IH; cbn in *; lia).
-        assert (Hr3 : cdata_body r3 = cdata_escape r3) by (apply IH; cbn in *; lia).
-        destruct (N.eqb_spec b1 93) as [->|N1]; [destruct (N.eqb_spec b2 93) as [->|N2]; [destruct (N.eqb_spec b3 62) as [->|N3]|]|].
-        * cbn [andb]. now rewrite Hr3.
-        * cbn [andb]. rewrite Hr.
-          destruct b3 as [|p]; [reflexivity|].
-          repeat (match goal with |- context [match ?p with _ => _ end] => destruct p end); try reflexivity; congruence.
-        * cbn [andb]. rewrite Hr.
-          destruct b2 as [|p]; [reflexivity|].
-          repeat (match goal with |- context [match ?p with _ => _ end] => destruct p end); try reflexivity; congruence.
-        * cbn [andb]. rewrite Hr.
-          destruct b1 as [|p]; [reflexivity|].
-          repeat (match goal with |- context [match ?p with _ => _ end] => destruct p end); try reflexivity; congruence. }
-  intro t. apply (H (length t)). lia.
-Qed.
+Proof. reflexivity. Qed.
 
 Lemma text_cdata : forall t, render_text TcCData t = B "<![CDATA[" ++ cdata_escape t ++ B "]]>".
 Proof.
-  intro t. unfold render_text, render_cdata. rewrite <- cdata_body_escape.
-  destruct t; reflexivity.
+  intro t. unfold render_text, render_cdata. destruct t; reflexivity.
 Qed.
 
 (** * decimal digits *)
